@@ -570,11 +570,11 @@ func (e *Enc) runRoot() {
 					env.names["result"] = sv
 				}
 			}
-			var earlier []string
+			var earlier []*Oblig
 			for k, cl := range c.Ensures {
 				f := e.evalBool(cl.Expr, env)
 				o := &Oblig{Kind: "post", Base: fmt.Sprintf("post#%d", k+1), Guard: r.guard, Formula: f, Pos: r.pos,
-					Text: "ensures " + cl.Text, Props: cl.Tags, Deps: append([]string{}, earlier...)}
+					Text: "ensures " + cl.Text, Props: cl.Tags, Deps: append([]*Oblig{}, earlier...)}
 				allScalar := true
 				for i := 0; i < res.Len(); i++ {
 					if !scalarType(res.At(i).Type(), 0) || r.vals[i].v.T == "" {
@@ -588,7 +588,7 @@ func (e *Enc) runRoot() {
 				}
 				e.oblige(o)
 				o.Prefix = len(e.body)
-				earlier = append(earlier, o.ID)
+				earlier = append(earlier, o)
 				// later clauses at this return may use this one (it is proved on its own;
 				// a later clause counts as discharged only if every earlier one is: Deps)
 				e.assume(r.guard, f)
